@@ -21,6 +21,8 @@ func (s *symstr) String() string {
 	for _, x := range s.e {
 		if b, ok := x.(uint8); ok {
 			sb.WriteByte(b)
+		} else if _, ok := x.(ffElem); ok {
+			sb.WriteString("<float>")
 		} else {
 			sb.WriteString("¿")
 		}
@@ -192,6 +194,9 @@ func (ps *pathState) strToRunes(v value) []value {
 			ps.requireASCII(b, "string->[]rune")
 			res = append(res, mkval(types.Int32, ps.ts.Zext(b.t, 32)))
 			i++
+		case ffElem:
+			res = append(res, b)
+			i++
 		}
 	}
 	return res
@@ -214,6 +219,8 @@ func (ps *pathState) runesToStr(rs []value) value {
 				panic(pathEnd{StUnsupported, "symbolic rune not provably ASCII in rune->string"})
 			}
 			e = append(e, mkval(types.Uint8, ps.ts.Extract(r.t, 7, 0)))
+		case ffElem:
+			e = append(e, r)
 		default:
 			panic(pathEnd{StEngineError, fmt.Sprintf("runesToStr: %T", r)})
 		}
@@ -258,6 +265,9 @@ func (it *symStringIter) next() tuple {
 		it.ps.requireASCII(b, "range over string")
 		okv[2] = mkval(types.Int32, it.ps.ts.Zext(b.t, 32))
 		it.i++
+	case ffElem:
+		okv[2] = b
+		it.i++
 	}
 	return okv
 }
@@ -284,4 +294,104 @@ func opaqueStr(v value) string {
 		return v.String()
 	}
 	return fmt.Sprintf("<%T>", v)
+}
+
+// ---- float-text pseudo bytes as integer values ----
+
+// ffClass: the characters a strconv.FormatFloat text is made of.
+const ffClassChars = "0123456789.+-eE"
+
+func ffLoHi() (int64, int64) { return '+', 'e' }
+
+// ffBinop: comparisons of a float-text pseudo byte with integers. The pseudo
+// byte stands for some character of the float-text class: it is different
+// from (and ordered against) every character outside that class; a comparison
+// whose outcome depends on which character of the class it is, is unsupported.
+func (ps *pathState) ffBinop(op token.Token, x, y value) value {
+	fx, isfx := x.(ffElem)
+	fy, isfy := y.(ffElem)
+	if isfx && isfy {
+		same := fx.x == fy.x && fx.f == fy.f && fx.prec == fy.prec
+		switch op {
+		case token.EQL:
+			if same {
+				return true
+			}
+		case token.NEQ:
+			if same {
+				return false
+			}
+		}
+		panic(pathEnd{StUnsupported, "comparison of two different float-text pseudo bytes"})
+	}
+	swap := false
+	other := y
+	if isfy {
+		other, swap = x, true
+	}
+	if _, ok := other.(sym); ok {
+		panic(pathEnd{StUnsupported, "comparison of a float-text pseudo byte with a symbolic byte"})
+	}
+	c := asInt64(widen(other))
+	if u, ok := widen(other).(uint64); ok {
+		c = int64(u)
+	}
+	inClass := c >= 0 && c < 128 && strings.ContainsRune(ffClassChars, rune(c))
+	lo, hi := ffLoHi()
+	// result of (ff OP c)
+	var res bool
+	o := op
+	if swap {
+		switch op {
+		case token.LSS:
+			o = token.GTR
+		case token.GTR:
+			o = token.LSS
+		case token.LEQ:
+			o = token.GEQ
+		case token.GEQ:
+			o = token.LEQ
+		}
+	}
+	switch o {
+	case token.EQL:
+		if inClass {
+			panic(pathEnd{StUnsupported, fmt.Sprintf("float-text pseudo byte compared with %q", rune(c))})
+		}
+		res = false
+	case token.NEQ:
+		if inClass {
+			panic(pathEnd{StUnsupported, fmt.Sprintf("float-text pseudo byte compared with %q", rune(c))})
+		}
+		res = true
+	case token.LSS, token.LEQ:
+		switch {
+		case c > hi:
+			res = true
+		case c < lo:
+			res = false
+		case c == lo && o == token.LSS:
+			res = false
+		case c == hi && o == token.LEQ:
+			res = true
+		default:
+			panic(pathEnd{StUnsupported, fmt.Sprintf("float-text pseudo byte ordered against %q", rune(c))})
+		}
+	case token.GTR, token.GEQ:
+		switch {
+		case c < lo:
+			res = true
+		case c > hi:
+			res = false
+		case c == hi && o == token.GTR:
+			res = false
+		case c == lo && o == token.GEQ:
+			res = true
+		default:
+			panic(pathEnd{StUnsupported, fmt.Sprintf("float-text pseudo byte ordered against %q", rune(c))})
+		}
+	default:
+		panic(pathEnd{StUnsupported, "arithmetic on a float-text pseudo byte: " + op.String()})
+	}
+	return res
 }
